@@ -1,0 +1,145 @@
+//go:build verif
+
+// Verification hooks (build tag "verif") for properties C01 and C05: request-id counters can be advanced (to reach
+// large ids without issuing a million requests), the sizes of the pending request/answer tables can be read, and a
+// context carrying a given session can be built so that ListRoots can be called for that session from outside a handler.
+// Nothing here is compiled into a normal build.
+
+package mcp
+
+import (
+	"context"
+	"encoding/json"
+	"fmt"
+	"strings"
+)
+
+// VerifSetRequestID sets the request-id counter of a client: the next request carries id n+1.
+func VerifSetRequestID(c *Client, n int64) { c.requestID.Store(n) }
+
+// VerifSetStdioRequestID sets the request-id counter of a stdio client.
+func VerifSetStdioRequestID(c *StdioClient, n int64) { c.requestID.Store(n) }
+
+// VerifSetServerRequestID sets the counter for server-issued request ids of *Server, *SSEServer or *StdioServer.
+func VerifSetServerRequestID(srv interface{}, n int64) {
+	switch s := srv.(type) {
+	case *Server:
+		s.requestID.Store(n)
+	case *SSEServer:
+		s.requestID.Store(n)
+	case *StdioServer:
+		s.requestID.Store(n)
+	}
+}
+
+// VerifPendingServerRequests is the number of pending server->client requests of *Server, *SSEServer or *StdioServer
+// (read under the table's own lock); -1 for anything else.
+func VerifPendingServerRequests(srv interface{}) int {
+	switch s := srv.(type) {
+	case *Server:
+		rm := s.httpHandler.responseManager
+		rm.mutex.RLock()
+		defer rm.mutex.RUnlock()
+		return len(rm.pendingRequests)
+	case *SSEServer:
+		s.responsesMu.RLock()
+		defer s.responsesMu.RUnlock()
+		return len(s.responses)
+	case *StdioServer:
+		s.responsesMu.RLock()
+		defer s.responsesMu.RUnlock()
+		return len(s.responses)
+	}
+	return -1
+}
+
+// VerifPendingClientRequests is the number of entries in the pending table of a client (*Client over the legacy SSE
+// transport, *StdioClient); 0 for the Streamable transport, which keeps no table; -1 for anything else.
+func VerifPendingClientRequests(c interface{}) int {
+	switch x := c.(type) {
+	case *Client:
+		switch t := x.transport.(type) {
+		case *sseClientTransport:
+			t.responsesMu.RLock()
+			defer t.responsesMu.RUnlock()
+			return len(t.responses)
+		case *streamableHTTPClientTransport:
+			return 0
+		}
+	case *StdioClient:
+		x.transport.pendingMutex.RLock()
+		defer x.transport.pendingMutex.RUnlock()
+		return len(x.transport.pendingRequests)
+	}
+	return -1
+}
+
+// VerifSessionContext returns ctx carrying the session with the given id of *Server or *SSEServer the way the library
+// itself hands it to handlers (session key and client-session key); false if there is no such session.
+func VerifSessionContext(ctx context.Context, srv interface{}, sessionID string) (context.Context, bool) {
+	var sess Session
+	switch s := srv.(type) {
+	case *Server:
+		if s.httpHandler.sessionManager == nil {
+			return ctx, false
+		}
+		x, ok := s.httpHandler.sessionManager.getSession(sessionID)
+		if !ok {
+			return ctx, false
+		}
+		sess = x
+	case *SSEServer:
+		v, ok := s.sessions.Load(sessionID)
+		if !ok {
+			return ctx, false
+		}
+		sess = v.(*sseSession)
+		ctx = setServerToContext(ctx, s)
+	default:
+		return ctx, false
+	}
+	return withClientSession(setSessionToContext(ctx, sess), sess), true
+}
+
+// VerifHasGetStream reports whether a GET stream is registered for the session (read under the table's lock).
+func VerifHasGetStream(s *Server, sessionID string) bool {
+	h := s.httpHandler
+	h.getSSEConnectionsLock.RLock()
+	defer h.getSSEConnectionsLock.RUnlock()
+	_, ok := h.getSSEConnections[sessionID]
+	return ok
+}
+
+// VerifPendingSlot looks at the pending server->client request with the given numeric id of *Server, *SSEServer or
+// *StdioServer: whether an entry exists and whether an answer is sitting in its channel (read-only).
+func VerifPendingSlot(srv interface{}, id int64) (exists bool, filled bool) {
+	var ch chan *json.RawMessage
+	switch s := srv.(type) {
+	case *Server:
+		rm := s.httpHandler.responseManager
+		want := fmt.Sprintf("%d", id)
+		rm.mutex.RLock()
+		for k, c := range rm.pendingRequests {
+			// the key is the rendered id today; tolerate a session-qualified key ("<session>:<id>" and the like)
+			if k == want || strings.HasSuffix(k, ":"+want) || strings.HasSuffix(k, "/"+want) || strings.HasSuffix(k, "|"+want) {
+				ch, exists = c, true
+			}
+		}
+		rm.mutex.RUnlock()
+	case *SSEServer:
+		s.responsesMu.RLock()
+		v, ok := s.responses[uint64(id)]
+		s.responsesMu.RUnlock()
+		if ok {
+			ch, exists = v.(chan *json.RawMessage)
+		}
+	case *StdioServer:
+		s.responsesMu.RLock()
+		v, ok := s.responses[uint64(id)]
+		s.responsesMu.RUnlock()
+		if ok {
+			ch, exists = v.(chan *json.RawMessage)
+		}
+	}
+	return exists, exists && len(ch) > 0
+}
